@@ -1200,6 +1200,381 @@ fn object_history(ctx: &Ctx, thorough: bool) {
     sp.done(true, if thorough { "9 start files x all sequences of <= 3 over the full menu + 5 start files x all sequences of 4 over the core menu, observer sweep on both files after each" } else { "9 start files x (all sequences of <= 2 over the full menu + all sequences of 3 over the core menu), observer sweep on both files after each" });
 }
 
+//------------ json.total_size: the size of the whole document x every route ---
+
+/// Counts the octets it is given.
+struct CountSink(u64);
+impl Write for CountSink {
+    fn write(&mut self, b: &[u8]) -> io::Result<usize> { self.0 += b.len() as u64; Ok(b.len()) }
+    fn flush(&mut self) -> io::Result<()> { Ok(()) }
+}
+
+/// Takes at most `k` octets per call and compares them, as they arrive, with
+/// the document another route produced. Stores nothing.
+struct CmpSink<'a> { want: &'a [u8], pos: usize, k: usize, diff_at: Option<usize> }
+impl<'a> CmpSink<'a> {
+    fn new(want: &'a [u8], k: usize) -> Self { CmpSink { want, pos: 0, k, diff_at: None } }
+    fn same(&self) -> bool { self.diff_at.is_none() && self.pos == self.want.len() }
+}
+impl Write for CmpSink<'_> {
+    fn write(&mut self, b: &[u8]) -> io::Result<usize> {
+        let n = b.len().min(self.k);
+        if self.diff_at.is_none() {
+            let from = self.pos.min(self.want.len());
+            let rest = &self.want[from..];
+            if rest.len() < n || rest[..n] != b[..n] { self.diff_at = Some(from + rest.iter().zip(&b[..n]).take_while(|(x, y)| x == y).count()) }
+        }
+        self.pos += n;
+        Ok(n)
+    }
+    fn flush(&mut self) -> io::Result<()> { Ok(()) }
+}
+
+/// Returns the document in chunks whose sizes run through `sizes` again and again.
+struct VarChunkReader<'a> { data: &'a [u8], sizes: &'static [usize], i: usize }
+impl Read for VarChunkReader<'_> {
+    fn read(&mut self, b: &mut [u8]) -> io::Result<usize> {
+        let n = b.len().min(self.sizes[self.i % self.sizes.len()]).min(self.data.len());
+        self.i += 1;
+        b[..n].copy_from_slice(&self.data[..n]); self.data = &self.data[n..]; Ok(n)
+    }
+}
+const TS_CHUNKS: &[usize] = &[1, 7, 4093, 65521, 3, 8192, 2, 100_003];
+
+/// How a document gets large.
+#[derive(Clone, Copy, Debug, PartialEq, Eq)]
+enum Way {
+    /// many small entries in one of the six sections
+    Section(usize),
+    /// ASPA assertions with ProviderAsns::MAX_COUNT providers each (the last one takes the remainder)
+    AspaMax,
+    /// one BGPsec assertion whose key makes up the document
+    LongKey,
+    /// one comment that makes up the document, held by an entry of section `holder`
+    Comment { escapes: bool, holder: usize },
+}
+const TS_SECTIONS: [&str; 6] = ["prefixFilters", "bgpsecFilters", "aspaFilters", "prefixAssertions", "bgpsecAssertions", "aspaAssertions"];
+/// 64 characters, one octet each in JSON.
+const TS_ASCII: &str = "local exception 0123456789 ABCDEFGHIJKLMNOPQRSTUVWXYZ (ticket) .";
+/// 16 characters that need escapes or several octets.
+const TS_ESCAPES: &str = "q\" b\\ n\n t\t \u{1}\u{7f}\u{e9}\u{65e5}\u{1F600}/";
+
+impl Way {
+    fn text(self) -> String {
+        match self {
+            Way::Section(s) => format!("many small entries in {}", TS_SECTIONS[s]),
+            Way::AspaMax => "ASPA assertions with 16380 providers each".to_string(),
+            Way::LongKey => "one BGPsec assertion with a long key".to_string(),
+            Way::Comment { escapes, holder } => format!("one long comment ({}) on an entry of {}", if escapes { "quotes, backslashes, control and non-ASCII characters" } else { "ASCII" }, TS_SECTIONS[holder]),
+        }
+    }
+    fn unit(self) -> &'static str { match self { Way::Section(_) => "entries", Way::AspaMax => "providers in all", Way::LongKey => "key octets", Way::Comment { .. } => "comment blocks" } }
+    /// the section that carries the entry whose ASCII comment pads the document to the exact size
+    fn pad_section(self) -> usize { match self { Way::Section(s) => s, Way::AspaMax => 5, Way::LongKey => 4, Way::Comment { holder, .. } => holder } }
+    fn probe(self) -> usize { match self { Way::Section(_) => 48, Way::AspaMax => 2 * ProviderAsns::MAX_COUNT, Way::LongKey => 768, Way::Comment { .. } => 64 } }
+}
+
+// entries whose JSON has a fixed width for a given i mod 12 (ten-digit AS numbers, three-digit octets, four-digit groups)
+fn ts_asn(i: usize) -> Asn { Asn::from_u32(1_000_000_000 + (i % 3_000_000_000usize) as u32) }
+fn ts_v4(i: usize) -> Prefix { Prefix::new(IpAddr::V4(Ipv4Addr::new(100 + (i % 100) as u8, 100 + (i / 100 % 100) as u8, 100 + (i / 10_000 % 100) as u8, 0)), 24).expect("a /24") }
+fn ts_v6(i: usize) -> Prefix { Prefix::new(IpAddr::V6(Ipv6Addr::new(0x2001, 0xdb8, 0x1000 + (i % 0xe000) as u16, 0x1000 + (i / 0xe000 % 0xe000) as u16, 0, 0, 0, 0)), 64).expect("a /64") }
+fn ts_ski(i: usize) -> KeyIdentifier { let mut k = K1; k[..8].copy_from_slice(&(i as u64).to_be_bytes()); KeyIdentifier::from(k) }
+fn ts_pf(i: usize) -> PrefixFilter {
+    match i % 4 {
+        0 => PrefixFilter::new(Some(ts_v4(i)), None, None),
+        1 => PrefixFilter::new(Some(ts_v6(i)), Some(ts_asn(i)), None),
+        2 => PrefixFilter::new(None, Some(ts_asn(i)), Some("AS only".into())),
+        _ => PrefixFilter::new(Some(ts_v4(i)), Some(ts_asn(i)), Some("q\" \\ \u{e9}".into())),
+    }
+}
+fn ts_bf(i: usize) -> BgpsecFilter {
+    match i % 3 { 0 => BgpsecFilter::new(Some(ts_ski(i)), None, None), 1 => BgpsecFilter::new(None, Some(ts_asn(i)), Some("c".into())), _ => BgpsecFilter::new(Some(ts_ski(i)), Some(ts_asn(i)), None) }
+}
+fn ts_af(i: usize) -> AspaFilter { AspaFilter::new(Some(ts_asn(i)), if i % 2 == 1 { Some("c".into()) } else { None }) }
+fn ts_pa(i: usize) -> PrefixAssertion {
+    match i % 4 {
+        0 => PrefixAssertion::new(MaxLenPrefix::new(ts_v4(i), None).expect("max-len"), ts_asn(i), None),
+        1 => PrefixAssertion::new(MaxLenPrefix::new(ts_v6(i), Some(96)).expect("max-len"), ts_asn(i), None),
+        2 => PrefixAssertion::new(MaxLenPrefix::new(ts_v4(i), Some(28)).expect("max-len"), ts_asn(i), Some("c".into())),
+        _ => PrefixAssertion::new(MaxLenPrefix::new(ts_v6(i), None).expect("max-len"), ts_asn(i), Some("\u{65e5}\u{672c}".into())),
+    }
+}
+fn ts_ba(i: usize) -> BgpsecAssertion {
+    BgpsecAssertion::new(ts_asn(i), ts_ski(i), Base64KeyInfo::try_from((0..91usize).map(|k| (k * 131 + i * 7) as u8).collect::<Vec<u8>>()).expect("key info"), if i % 2 == 1 { Some("c".into()) } else { None })
+}
+fn ts_provs(j: usize, n: usize) -> ProviderAsns {
+    ProviderAsns::try_from_iter((0..n).map(|k| if k + 1 == n { Asn::from_u32(u32::MAX) } else { Asn::from_u32(1_000_000_000 + (j % 1000) as u32 + 3 * k as u32) })).expect("at most MAX_COUNT providers")
+}
+fn ts_aa(i: usize) -> AspaAssertion { AspaAssertion::new(ts_asn(i), ts_provs(i, i % 4), None) }
+
+fn ts_push(f: &mut SlurmFile, sec: usize, i: usize) {
+    match sec {
+        0 => f.filters.prefix.push(ts_pf(i)), 1 => f.filters.bgpsec.push(ts_bf(i)), 2 => f.filters.aspa.get_or_insert_with(Vec::new).push(ts_af(i)),
+        3 => f.assertions.prefix.push(ts_pa(i)), 4 => f.assertions.bgpsec.push(ts_ba(i)), _ => f.assertions.aspa.get_or_insert_with(Vec::new).push(ts_aa(i)),
+    }
+}
+fn ts_last_comment(f: &mut SlurmFile, sec: usize) -> &mut Option<String> {
+    match sec {
+        0 => &mut f.filters.prefix.last_mut().expect("entry").comment, 1 => &mut f.filters.bgpsec.last_mut().expect("entry").comment,
+        2 => &mut f.filters.aspa.as_mut().and_then(|v| v.last_mut()).expect("entry").comment, 3 => &mut f.assertions.prefix.last_mut().expect("entry").comment,
+        4 => &mut f.assertions.bgpsec.last_mut().expect("entry").comment, _ => &mut f.assertions.aspa.as_mut().and_then(|v| v.last_mut()).expect("entry").comment,
+    }
+}
+
+/// The file of a way with `n` units of bulk: one entry in every section, the
+/// bulk, and a last entry in the way's section whose comment is "" (the pad).
+fn ts_file(way: Way, n: usize) -> SlurmFile {
+    let mut f = SlurmFile::new(ValidationOutputFilters { prefix: Vec::new(), bgpsec: Vec::new(), aspa: Some(Vec::new()) }, LocallyAddedAssertions { prefix: Vec::new(), bgpsec: Vec::new(), aspa: Some(Vec::new()) });
+    for sec in 0..6 { ts_push(&mut f, sec, 12 + sec) }
+    match way {
+        Way::Section(s) => {
+            match s { 0 => f.filters.prefix.reserve(n + 1), 1 => f.filters.bgpsec.reserve(n + 1), 3 => f.assertions.prefix.reserve(n + 1), 4 => f.assertions.bgpsec.reserve(n + 1), _ => {} }
+            for i in 0..n { ts_push(&mut f, s, 24 + i) }
+        }
+        Way::AspaMax => {
+            let v = f.assertions.aspa.get_or_insert_with(Vec::new);
+            let (mut left, mut j) = (n, 0usize);
+            while left > 0 { let k = left.min(ProviderAsns::MAX_COUNT); v.push(AspaAssertion::new(ts_asn(100 + j), ts_provs(j, k), None)); left -= k; j += 1 }
+        }
+        Way::LongKey => f.assertions.bgpsec.push(BgpsecAssertion::new(ts_asn(1), ts_ski(1), Base64KeyInfo::try_from((0..n).map(|k| (k * 131 + 7) as u8).collect::<Vec<u8>>()).expect("key info"), None)),
+        Way::Comment { escapes, holder } => { ts_push(&mut f, holder, 36); *ts_last_comment(&mut f, holder) = Some(if escapes { TS_ESCAPES } else { TS_ASCII }.repeat(n)) }
+    }
+    let sec = way.pad_section();
+    ts_push(&mut f, sec, 48);
+    *ts_last_comment(&mut f, sec) = Some(String::new());
+    f
+}
+
+fn ts_count(f: &SlurmFile) -> usize { let mut c = CountSink(0); match f.to_writer(&mut c) { Ok(()) => c.0 as usize, Err(_) => f.to_string().len() } }
+
+/// Builds the file of `way` whose compact JSON has (on the unchanged library
+/// exactly) `target` octets: the bulk is sized from two small probes, the rest
+/// is filled by the ASCII comment of the last entry. Returns the file, the
+/// units of bulk, the length of the padding comment.
+fn ts_build(way: Way, target: usize) -> (SlurmFile, usize, usize) {
+    const MARGIN: usize = 4096;
+    let c0 = ts_count(&ts_file(way, 0));
+    let cp = ts_count(&ts_file(way, way.probe()));
+    let per_unit = (cp.saturating_sub(c0)).max(1) as f64 / way.probe() as f64;
+    let n = if target > c0 + MARGIN { ((target - c0 - MARGIN) as f64 / per_unit) as usize } else { 0 };
+    let mut f = ts_file(way, n);
+    let have = ts_count(&f);
+    let pad = target.saturating_sub(have);
+    *ts_last_comment(&mut f, way.pad_section()) = Some("x".repeat(pad));
+    (f, n, pad)
+}
+
+#[derive(Clone, Copy, Debug, PartialEq, Eq)]
+enum ParseRoute { FromStr, FromSlice, ReaderSlice, ReaderBuf, ReaderVar, ReaderOne, ReaderBufOdd }
+impl ParseRoute {
+    fn text(self) -> &'static str {
+        match self {
+            ParseRoute::FromStr => "SlurmFile::from_str", ParseRoute::FromSlice => "serde_json::from_slice::<SlurmFile>", ParseRoute::ReaderSlice => "SlurmFile::from_reader(&[u8])",
+            ParseRoute::ReaderBuf => "SlurmFile::from_reader(BufReader::new(&[u8]))", ParseRoute::ReaderVar => "SlurmFile::from_reader(a reader returning 1, 7, 4093, 65521, 3, 8192, 2, 100003, ... octets per call)",
+            ParseRoute::ReaderOne => "SlurmFile::from_reader(a reader returning 1 octet per call)", ParseRoute::ReaderBufOdd => "SlurmFile::from_reader(BufReader::with_capacity(4099, a reader returning 4093 octets per call))",
+        }
+    }
+    fn run(self, d: &[u8]) -> Result<SlurmFile, String> {
+        match self {
+            ParseRoute::FromStr => SlurmFile::from_str(std::str::from_utf8(d).map_err(|e| format!("the document is not UTF-8: {e}"))?).map_err(|e| e.to_string()),
+            ParseRoute::FromSlice => serde_json::from_slice::<SlurmFile>(d).map_err(|e| e.to_string()),
+            ParseRoute::ReaderSlice => SlurmFile::from_reader(d).map_err(|e| e.to_string()),
+            ParseRoute::ReaderBuf => SlurmFile::from_reader(io::BufReader::new(d)).map_err(|e| e.to_string()),
+            ParseRoute::ReaderVar => SlurmFile::from_reader(VarChunkReader { data: d, sizes: TS_CHUNKS, i: 0 }).map_err(|e| e.to_string()),
+            ParseRoute::ReaderOne => SlurmFile::from_reader(ChunkReader { data: d, k: 1 }).map_err(|e| e.to_string()),
+            ParseRoute::ReaderBufOdd => SlurmFile::from_reader(io::BufReader::with_capacity(4099, ChunkReader { data: d, k: 4093 })).map_err(|e| e.to_string()),
+        }
+    }
+}
+
+struct TsCase { way: Way, exp: u32, delta: i64 }
+impl TsCase {
+    fn target(&self) -> usize { ((1i64 << self.exp) + self.delta) as usize }
+    fn text(&self) -> String { format!("{}; compact JSON of 2^{}{} = {} octets", self.way.text(), self.exp, match self.delta { 0 => String::new(), d => format!("{d:+}") }, self.target()) }
+}
+
+struct TsTally { bad: Vec<(String, String)>, good: Vec<String>, ev: u64 }
+
+/// One parse of one document: equal to the file written, same number of payload items.
+static PROF: Mutex<BTreeMap<String, f64>> = Mutex::new(BTreeMap::new());
+fn cpu_now() -> f64 { let mut ts = libc::timespec { tv_sec: 0, tv_nsec: 0 }; unsafe { libc::clock_gettime(libc::CLOCK_THREAD_CPUTIME_ID, &mut ts) }; ts.tv_sec as f64 + ts.tv_nsec as f64 / 1e9 }
+struct Prof(String, f64);
+impl Prof { fn new(l: &str) -> Prof { Prof(l.to_string(), cpu_now()) } }
+impl Drop for Prof { fn drop(&mut self) { *PROF.lock().unwrap().entry(self.0.clone()).or_insert(0.0) += cpu_now() - self.1 } }
+fn ts_parse_and_judge(t: &mut TsTally, oc: &mut Oc, ser: &str, pr: ParseRoute, d: &[u8], f: &SlurmFile, want_payloads: usize) {
+    let _p = Prof::new(&format!("parse {:?}{}", pr, if ser.contains("pretty") { " pretty" } else { "" }));
+    t.ev += 1;
+    let pair = format!("{ser} -> {}", pr.text());
+    match guard(|| pr.run(d).map(|g| (g == *f, g.assertions.iter_payload().count()))) {
+        Err(p) => t.bad.push((pair, format!("PANIC {p}"))),
+        Ok(Err(e)) => { bump(oc, "own-output-rejected"); t.bad.push((pair, format!("own output of {} octets rejected: {e}", d.len()))) }
+        Ok(Ok((false, _))) => { bump(oc, "parsed-file-differs"); t.bad.push((pair, format!("the file parsed from {} octets differs from the file written", d.len()))) }
+        Ok(Ok((true, n))) if n != want_payloads => t.bad.push((pair, format!("the parsed file is equal but its iter_payload yields {n} items, the file has {want_payloads} assertions"))),
+        Ok(Ok((true, _))) => { bump(oc, "round-trip-equal"); t.good.push(pair) }
+    }
+}
+
+/// One document size reached in one way, through every route. Returns (executions, size hit exactly).
+fn ts_case(lf: &mut Lf, oc: &mut Oc, case: &TsCase, thorough: bool, value_limit: usize) -> (u64, bool) {
+    let head = case.text();
+    let _pb = Prof::new("build");
+    let (f, n, pad) = match guard(|| ts_build(case.way, case.target())) {
+        Ok(x) => x,
+        Err(p) => { lf.fail("C15.json.total_size.no_panic", || format!("{head}: while building the file"), || p.clone()); return (1, false) }
+    };
+    let desc = format!("{head} ({n} {}, padding comment of {pad} characters on the last entry of {})", case.way.unit(), TS_SECTIONS[case.way.pad_section()]);
+    let want_payloads = f.assertions.prefix.len() + f.assertions.bgpsec.len() + f.assertions.aspa.as_ref().map_or(0, |v| v.len());
+    let mut t = TsTally { bad: Vec::new(), good: Vec::new(), ev: 0 };
+    let mut writer_bad: Vec<(String, String)> = Vec::new();
+    let parse_routes: &[ParseRoute] = if thorough { &[ParseRoute::FromStr, ParseRoute::FromSlice, ParseRoute::ReaderSlice, ParseRoute::ReaderBuf, ParseRoute::ReaderVar, ParseRoute::ReaderOne, ParseRoute::ReaderBufOdd] }
+        else { &[ParseRoute::FromStr, ParseRoute::FromSlice, ParseRoute::ReaderSlice, ParseRoute::ReaderBuf, ParseRoute::ReaderVar, ParseRoute::ReaderOne] };
+
+    drop(_pb); let _ps = Prof::new("serialise");
+    // serialise route 1: to_string
+    t.ev += 1;
+    let s = match guard(|| f.to_string()) { Ok(s) => s, Err(p) => { lf.fail("C15.json.total_size.no_panic", || format!("{desc}: to_string"), || p.clone()); return (t.ev, false) } };
+    let exact = s.len() == case.target();
+    bump(oc, if exact { "document-has-exactly-the-target-size" } else { "document-size-off-target" });
+    // documents of other routes that differ from to_string's (none on the unchanged library)
+    let mut others: Vec<(String, Vec<u8>)> = Vec::new();
+    // serialise route 2: to_writer into a Vec
+    t.ev += 1;
+    match guard(|| { let mut w = Vec::new(); f.to_writer(&mut w).map(|_| w).map_err(|e| format!("{:?}: {e}", e.kind())) }) {
+        Err(p) => writer_bad.push(("to_writer into a Vec".into(), format!("PANIC {p}"))),
+        Ok(Err(e)) => writer_bad.push(("to_writer into a Vec".into(), format!("failed on a sink that takes everything: {e}"))),
+        Ok(Ok(w)) => if w == s.as_bytes() { bump(oc, "same-octets-as-to_string") } else { bump(oc, "other-octets-than-to_string"); others.push(("to_writer into a Vec".into(), w)) },
+    }
+    // serialise routes 3..: sinks that take part of what they are offered; compared on the fly, stored only if they differ
+    type Ser = fn(&SlurmFile, &mut dyn Write) -> Result<(), String>;
+    let lib_writer: Ser = |f, w| f.to_writer(w).map_err(|e| format!("{:?}: {e}", e.kind()));
+    let lib_writer_buffered: Ser = |f, w| { let mut bw = io::BufWriter::with_capacity(8192, w); f.to_writer(&mut bw).map_err(|e| format!("{:?}: {e}", e.kind()))?; bw.flush().map_err(|e| format!("flush: {e}")) };
+    let direct: Ser = |f, w| serde_json::to_writer(w, f).map_err(|e| e.to_string());
+    for (label, k, ser) in [("to_writer into a sink taking at most 4093 octets per call", 4093usize, lib_writer), ("to_writer into BufWriter(8192) around a sink taking at most 7 octets per call", 7, lib_writer_buffered), ("serde_json::to_writer(&file) into a sink taking at most 65521 octets per call", 65521, direct)] {
+        t.ev += 1;
+        match guard(|| { let mut c = CmpSink::new(s.as_bytes(), k); let r = ser(&f, &mut c); (r, c.same(), c.pos, c.diff_at) }) {
+            Err(p) => writer_bad.push((label.into(), format!("PANIC {p}"))),
+            Ok((Err(e), _, pos, _)) => writer_bad.push((label.into(), format!("failed after {pos} octets on a sink that never refuses: {e}"))),
+            Ok((Ok(()), true, _, _)) => bump(oc, "same-octets-as-to_string"),
+            Ok((Ok(()), false, _, _)) => {
+                bump(oc, "other-octets-than-to_string");
+                match guard(|| { let mut c = Chunk { k, got: Vec::new() }; ser(&f, &mut c).map(|_| c.got) }) { Ok(Ok(got)) => others.push((label.into(), got)), Ok(Err(e)) => writer_bad.push((label.into(), format!("failed when repeated: {e}"))), Err(p) => writer_bad.push((label.into(), format!("PANIC {p}"))) }
+            }
+        }
+    }
+    drop(_ps);
+    // every parse route over the document (identical octets from all serialise routes are parsed once per parse route)
+    let shared = if others.is_empty() { "to_string = to_writer into every sink (same octets)" } else { "to_string" };
+    for &pr in parse_routes { ts_parse_and_judge(&mut t, oc, shared, pr, s.as_bytes(), &f, want_payloads) }
+    for (label, d) in &others { for &pr in parse_routes { ts_parse_and_judge(&mut t, oc, label, pr, d, &f, want_payloads) } }
+    drop(others);
+    // the pretty forms
+    let _pp = Prof::new("pretty total");
+    t.ev += 2;
+    match guard(|| { let p = f.to_string_pretty(); let mut c = CmpSink::new(p.as_bytes(), 4093); let r = f.to_writer_pretty(&mut c).map_err(|e| format!("{:?}: {e}", e.kind())); let same = c.same(); let pos = c.pos; (p, r, same, pos) }) {
+        Err(p) => writer_bad.push(("to_string_pretty / to_writer_pretty".into(), format!("PANIC {p}"))),
+        Ok((p, r, same, pos)) => {
+            match r {
+                Err(e) => writer_bad.push(("to_writer_pretty into a sink taking at most 4093 octets per call".into(), format!("failed after {pos} octets on a sink that never refuses: {e}"))),
+                Ok(()) if same => bump(oc, "same-octets-as-to_string"),
+                Ok(()) => {
+                    bump(oc, "other-octets-than-to_string");
+                    match guard(|| { let mut c = Chunk { k: 4093, got: Vec::new() }; f.to_writer_pretty(&mut c).map(|_| c.got) }) {
+                        Ok(Ok(got)) => for pr in [ParseRoute::FromStr, ParseRoute::ReaderBuf] { ts_parse_and_judge(&mut t, oc, "to_writer_pretty into a sink taking at most 4093 octets per call", pr, &got, &f, want_payloads) },
+                        Ok(Err(e)) => writer_bad.push(("to_writer_pretty".into(), format!("failed when repeated: {e}"))), Err(p) => writer_bad.push(("to_writer_pretty".into(), format!("PANIC {p}"))),
+                    }
+                }
+            }
+            let pretty_routes: &[ParseRoute] = if thorough { &[ParseRoute::FromStr, ParseRoute::ReaderBuf, ParseRoute::ReaderSlice] } else { &[ParseRoute::FromStr, ParseRoute::ReaderBuf] };
+            for &pr in pretty_routes { ts_parse_and_judge(&mut t, oc, "to_string_pretty", pr, p.as_bytes(), &f, want_payloads) }
+        }
+    }
+    drop(s); drop(_pp); let _pv = Prof::new("value + drop");
+    // the serde_json::Value route (a tree of maps: many times the size of the document, hence bounded)
+    if case.target() <= value_limit {
+        t.ev += 2;
+        let pair = "serde_json::to_value -> serde_json::from_value / Value::to_string -> SlurmFile::from_str".to_string();
+        match guard(|| -> Result<(), String> {
+            let v = serde_json::to_value(&f).map_err(|e| format!("to_value: {e}"))?;
+            let txt = v.to_string();
+            let g: SlurmFile = serde_json::from_value(v).map_err(|e| format!("from_value rejects the value: {e}"))?;
+            if g != f { return Err("to_value -> from_value gives a different file".into()) }
+            if g.assertions.iter_payload().count() != want_payloads { return Err("to_value -> from_value: iter_payload yields another number of items".into()) }
+            drop(g);
+            match SlurmFile::from_str(&txt) { Ok(g) if g == f => Ok(()), Ok(_) => Err("Value::to_string -> from_str gives a different file".into()), Err(e) => Err(format!("Value::to_string -> from_str rejected: {e}")) }
+        }) { Err(p) => t.bad.push((pair, format!("PANIC {p}"))), Ok(Err(e)) => t.bad.push((pair, e)), Ok(Ok(())) => { bump(oc, "value-route-equal"); t.good.push(pair) } }
+    } else { bump(oc, "value-route-not-run-above-its-size-bound") }
+    let good = if t.good.is_empty() { "none".to_string() } else { t.good.join(" | ") };
+    for (route, d) in &writer_bad { lf.fail(if d.starts_with("PANIC") { "C15.json.total_size.no_panic" } else { "C15.json.total_size.writer" }, || format!("{desc}: {route}"), || d.clone()) }
+    for (pair, d) in &t.bad {
+        let oracle = if d.starts_with("PANIC") { "C15.json.total_size.no_panic" } else if d.contains("iter_payload") { "C15.json.total_size.payload_count" } else { "C15.json.total_size.roundtrip" };
+        lf.fail(oracle, || format!("{desc}: {pair}"), || format!("{d}; pairs that gave back an equal file: {good}"));
+    }
+    (t.ev, exact)
+}
+
+fn total_size(ctx: &Ctx, thorough: bool) {
+    let (lo, hi): (u32, u32) = (16, if thorough { 28 } else { 25 });
+    let hi = std::env::var("VERIF_C15_TOP_EXP").ok().and_then(|v| v.parse().ok()).unwrap_or(hi);
+    let value_limit: usize = (if thorough { 16usize << 20 } else { 4 << 20 }) + 1;
+    let sp = ctx.space("json.total_size",
+        "the TOTAL SIZE of the document as a quantity, crossed with every route: files whose compact JSON has exactly 2^e - 1, 2^e and 2^e + 1 octets for every e from 16 (64 KiB) to 25 (32 MiB; thorough: to 28 = 256 MiB), the size reached in ten WAYS: many small entries in each of the six sections in turn (entries of fixed width: ten-digit AS numbers, /24 and /64 prefixes, key identifiers, 91-octet keys, 0..3 providers, some with comments), ASPA assertions with ProviderAsns::MAX_COUNT = 16380 providers each (the last one with the remainder), one BGPsec assertion whose key is the document, one long ASCII comment and one long comment of quotes, backslashes, control and non-ASCII characters (held by an entry of each of the six sections in turn over the sizes); every file has an entry in every section, and the ASCII comment of its last entry pads it to the exact size. Every file goes through EVERY serialise route (to_string, to_writer into a Vec, into a sink taking <= 4093 octets per call, into a BufWriter around a sink taking <= 7 octets per call, serde_json::to_writer of the file into a sink taking <= 65521 per call; to_string_pretty and to_writer_pretty) x EVERY parse route (SlurmFile::from_str, serde_json::from_slice, SlurmFile::from_reader over a slice, over a BufReader, over a reader returning 1 / 7 / 4093 / 65521 / 3 / 8192 / 2 / 100003 ... octets per call, over a reader returning 1 octet per call; thorough: also over a BufReader of capacity 4099 around a reader returning 4093 per call); serialise routes whose octets are identical (compared as they arrive) share one parse per parse route, routes with other octets are parsed on their own; the pretty forms are parsed by from_str and from_reader over a BufReader (thorough: also over a slice); up to 4 MiB + 1 (thorough 16 MiB + 1) also to_value -> from_value and Value::to_string -> from_str. Oracle: every pairing gives back a file equal to the one written whose iter_payload yields as many items as the file has assertions (so all routes agree); a serialise route may fail only if its sink refuses. non-trivial = files whose compact JSON has exactly the target size");
+    space_body(ctx, &sp.clone(), || {
+        let mut cases: Vec<TsCase> = Vec::new();
+        for e in lo..=hi { for (ni, delta) in [-1i64, 0, 1].into_iter().enumerate() {
+            let rot = (e - lo) as usize + ni;
+            for s in 0..6 { cases.push(TsCase { way: Way::Section(s), exp: e, delta }) }
+            cases.push(TsCase { way: Way::AspaMax, exp: e, delta });
+            cases.push(TsCase { way: Way::LongKey, exp: e, delta });
+            cases.push(TsCase { way: Way::Comment { escapes: false, holder: rot % 6 }, exp: e, delta });
+            cases.push(TsCase { way: Way::Comment { escapes: true, holder: (rot + 3) % 6 }, exp: e, delta });
+        }}
+        // largest first; a case is started only while the documents in flight fit the memory budget
+        // (weight: octets of the document x the copies alive at once), smaller cases fill the other threads
+        let weight = |c: &TsCase| -> u64 { c.target() as u64 * if c.target() <= value_limit { 30 } else { 5 } };
+        let budget: u64 = cases.iter().map(weight).max().unwrap_or(0).max(if thorough { 3u64 << 30 } else { 3u64 << 29 });
+        cases.sort_by(|a, b| b.target().cmp(&a.target()));
+        let n_cases = cases.len();
+        let state = Mutex::new((std::collections::VecDeque::from(cases), budget));
+        let cv = std::sync::Condvar::new();
+        let threads = rayon::current_num_threads().max(1);
+        std::thread::scope(|scope| {
+            for _ in 0..threads {
+                scope.spawn(|| {
+                    loop {
+                        let case = {
+                            let mut g = state.lock().unwrap();
+                            loop {
+                                if g.0.is_empty() { break None }
+                                let wf = weight(g.0.front().unwrap());
+                                if wf <= g.1 { g.1 -= wf; break g.0.pop_front() }
+                                let wb = weight(g.0.back().unwrap());
+                                if wb <= g.1 { g.1 -= wb; break g.0.pop_back() }
+                                g = cv.wait(g).unwrap();
+                            }
+                        };
+                        let Some(case) = case else { break };
+                        rpki_verif::note_case(|| case.text());
+                        let mut lf = Lf::new(); let mut oc = Oc::new();
+                        if let Some((ev, exact)) = unit(|| case.text(), || ts_case(&mut lf, &mut oc, &case, thorough, value_limit)) { sp.evals(ev); if exact { sp.nontrivial(1) } }
+                        sp.merge_outcomes(&oc);
+                        drop(lf);
+                        state.lock().unwrap().1 += weight(&case);
+                        cv.notify_all();
+                    }
+                });
+            }
+        });
+        if std::env::var("VERIF_C15_PROFILE").is_ok() { for (k, v) in PROF.lock().unwrap().iter() { eprintln!("PROF {k}: {v:.1}") } }
+        sp.set("sizes", serde_json::json!(format!("2^e - 1, 2^e, 2^e + 1 for e = {lo}..={hi}")));
+        sp.set("ways", serde_json::json!((0..6).map(|s| Way::Section(s).text()).chain([Way::AspaMax.text(), Way::LongKey.text(), "one long ASCII comment, on an entry of each section in turn".to_string(), "one long comment of characters that need escapes or several octets, on an entry of each section in turn".to_string()]).collect::<Vec<_>>()));
+        sp.set("cases", serde_json::json!(n_cases));
+        sp.set("value_route_up_to_octets", serde_json::json!(value_limit));
+        sp.sample_str(|| TsCase { way: Way::AspaMax, exp: 24, delta: 1 }.text());
+        sp.sample_str(|| TsCase { way: Way::Section(0), exp: hi, delta: 1 }.text());
+    });
+    sp.done(true, &format!("10 ways x 3 sizes around every power of two from 2^{lo} to 2^{hi} octets x all serialise routes x all parse routes"));
+}
+
 fn main() {
     let ctx = Ctx::new("C15", "exploration");
     ctx.assume("RFC 8416 section 3.3 (as restated in the property) is the specification of the drop decision; serde_json is trusted as a JSON reader/writer of primitive values");
@@ -1810,6 +2185,9 @@ fn main() {
         sp.sample_str(|| "one ASPA assertion with 16380 providers".to_string());
     });
     sp.done(true, "all listed counts for providers, key octets, entries per section, comment lengths, and filter lists with the match first / middle / last / absent");
+
+    // ------------------------------------------------------------------ (4c')
+    total_size(&ctx, thorough);
 
     // ------------------------------------------------------------------ (4d)
     let sp = ctx.space("json.member_orders",
